@@ -196,8 +196,15 @@ let () =
           match render w d with
           | Some s -> hex_of_str s
           | None -> "fuel")
+  | "sigdoc" ->
+      (* TREE DOC -> 0 | 1 | 2: the signature certificate on a document dumped by the implementation (2 = out of scope) *)
+      each_line (fun line ->
+          let t = toks_of line in
+          let tree = parse_tree t in
+          let d = parse_doc t in
+          if not (sig_scope tree) then "2" else if sig_check tree d then "1" else "0")
   | "conv" ->
-      (* W TAB REORDER NW (HEX WIDTH)*NW TREE -> ok COUNT:WFC:SIZE:SWFC DOC<tab>OUTHEX | err | panic SITE | fuel *)
+      (* W TAB REORDER NW (HEX WIDTH)*NW TREE -> ok COUNT:WFC:SIZE:SWFC:SIG DOC<tab>OUTHEX | err | panic SITE | fuel *)
       each_line (fun line ->
           let t = toks_of line in
           let w = n_of_int (int_of_string (next t)) in
@@ -214,8 +221,25 @@ let () =
             | Panic s -> Printf.sprintf "panic %s swfc=%d" (site_name s) (if swfc tree then 1 else 0)
             | Ok (d, cnt) ->
                 (match render w d with
-                 | Some out -> Printf.sprintf "ok %d:%d:%d:%d %s\t%s" (int_of_n cnt) (if wfc tree then 1 else 0) (int_of_nat (tree_size tree)) (if swfc tree then 1 else 0) (doc_to_string d) (hex_of_str (strip out))
+                 | Some out -> Printf.sprintf "ok %d:%d:%d:%d:%d %s\t%s" (int_of_n cnt) (if wfc tree then 1 else 0) (int_of_nat (tree_size tree)) (if swfc tree then 1 else 0) (if not (sig_scope tree) then 2 else if sig_check tree d then 1 else 0) (doc_to_string d) (hex_of_str (strip out))
                  | None -> "fuel"))
+  | "sig" ->
+      (* same input as conv -> WSIG DSIGHEX TSIGHEX (diagnosis of a failed signature certificate) *)
+      each_line (fun line ->
+          let t = toks_of line in
+          let w = n_of_int (int_of_string (next t)) in
+          let tab = n_of_int (int_of_string (next t)) in
+          let reo = (next t = "1") in
+          let nw = int_of_string (next t) in
+          let table = List.init nw (fun _ -> let h = next t in let wd = int_of_string (next t) in (h, n_of_int wd)) in
+          let swidth (s : str) : n = swidth_of table s in
+          let tree = parse_tree t in
+          let cfg = { tab_spaces = tab; max_width = w; blank_lines_upper_bound = cfg_default.blank_lines_upper_bound;
+                      reorder_import_items = reo } in
+          if erroneous tree then "err"
+          else match convert_root swidth cfg tree with
+            | Panic _ -> "panic"
+            | Ok (d, _) -> Printf.sprintf "%d %s %s" (if wsig d then 1 else 0) (hex_of_str (dsig d)) (hex_of_str (tsig tree)))
   | "range" ->
       (* W TAB A B NW (HEX WIDTH)*NW TREE -> ok RS RE OUTHEX | err | panic SITE | fuel *)
       each_line (fun line ->
